@@ -28,6 +28,7 @@
 (*        close of the tunnel with x, "forge" the harness made n send      *)
 (*   src  underlay source address, mt lighthouse message type / data kind, *)
 (*   x    overlay address named in the message, addrs underlay addresses   *)
+(*   fresh (hs1) the datagram made a new tunnel in this step                *)
 (*        (alist: as listed, with repetitions)                             *)
 (* Emission o = [k, to, peer, mt, x, addrs], k in hs1 hs2 punch0 punch1    *)
 (*   recverr enc other; peer = the pending handshake / tunnel it belongs to*)
@@ -36,7 +37,7 @@ EXTENDS Integers, Sequences, FiniteSets, TLC
 
 CONSTANTS Nodes          \* node names = overlay address names (one overlay address per node)
 
-VARIABLES cfg,     \* configuration of the world (set at reset): amlh, lhs, hostile, deny, denyPeer, static, adv, respond
+VARIABLES cfg,     \* configuration of the world (set at reset): amlh, lhs, hostile, deny, denyPeer, static, adv, respond, strict
           tuns,    \* tuns[n]  : peers n has a tunnel with
           pend,    \* pend[n]  : overlay addresses n is handshaking with
           known,   \* known[n] : address table (entries, see above)
@@ -44,9 +45,10 @@ VARIABLES cfg,     \* configuration of the world (set at reset): amlh, lhs, host
           sched,   \* sched[n] : punches n may still send: underlay address -> count                      -- R6
           resp,    \* resp[n]  : overlay addresses a configured lighthouse told n to punch back to        -- R6
           asked,   \* asked[l] : <<x, a>>: a asked lighthouse l about x                                   -- R2
-          ever     \* ever[l]  : <<x, u>>: u was in the cache of lighthouse l for x at some time          -- R2
+          ever,    \* ever[l]  : <<x, u>>: u was in the cache of lighthouse l for x at some time          -- R2
+          refused  \* refused[n]: addresses of punch notifications that did not come from a configured lighthouse (names the cause of an R6 verdict)
 
-vars == <<cfg, tuns, pend, known, wanted, sched, resp, asked, ever>>
+vars == <<cfg, tuns, pend, known, wanted, sched, resp, asked, ever, refused>>
 
 -----------------------------------------------------------------------------
 (* configuration *)
@@ -59,7 +61,6 @@ Adv(n) == {p[2] : p \in {q \in cfg.adv : q[1] = n}}                \* what n may
 Usable(n, x, u) == <<n, u>> \notin cfg.deny /\ <<n, x, u>> \notin cfg.denyPeer
 
 (* the address table *)
-AddrsOf(K, x) == {e[4] : e \in {f \in K : f[1] = x /\ f[3] \in {"rep", "lrn", "rem"}}}
 HsAddrs(K, x) == {e[4] : e \in {f \in K : f[1] = x /\ f[3] \in {"rep", "lrn"}}}      \* RemoteList.cache (before blocking)
 Blocked(K, x) == {e[4] : e \in {f \in K : f[1] = x /\ f[3] = "blk"}}
 RemOf(K, x) == {e[4] : e \in {f \in K : f[1] = x /\ f[3] = "rem"}}                   \* HostInfo.remote of the tunnels with x
@@ -80,46 +81,50 @@ EmptyBag == [u \in {""} |-> 0]
 (* Writers of the address table, one per handler *)
 
 \* lighthouse.go handleHostQueryReply: only from a CONFIGURED lighthouse; stored under that lighthouse          (R4)
-IsReply(n, S) == S.k = "enc" /\ S.mt = "HostQueryReply" /\ S.from \in Lhs(n)
-W_Reply(n, S, e) == IsReply(n, S) /\ e[1] = S.x /\ e[2] = S.from /\ e[3] = "rep"
+IsReply(n, S) == S.mt = "HostQueryReply" /\ S.k = "enc" /\ S.from \in Lhs(n)
+W_Reply(n, S, e) == e[3] = "rep" /\ e[1] = S.x /\ e[2] = S.from /\ IsReply(n, S)
 
 \* lighthouse.go handleHostUpdateNotification: only a lighthouse; stored under the AUTHENTICATED sender            (R3)
-IsUpdate(n, S) == S.k = "enc" /\ S.mt = "HostUpdateNotification" /\ AmLh(n)
-W_Update(n, S, e) == IsUpdate(n, S) /\ e[1] = S.from /\ e[2] = S.from /\ e[3] = "rep"
+IsUpdate(n, S) == S.mt = "HostUpdateNotification" /\ S.k = "enc" /\ AmLh(n)
+W_Update(n, S, e) == e[3] = "rep" /\ e[1] = S.from /\ e[2] = S.from /\ IsUpdate(n, S)
 
 \* hostmap.go HostInfo.SetRemote -> RemoteList.LearnRemote (handshake completion, outside.go handleHostRoaming): an
 \* authenticated packet of x itself, the address is where it came from                                          (R3, R4)
-IsAuth(S) == S.k \in {"enc", "hs1", "hs2"} /\ S.from # ""
-W_Learn(n, S, e) == IsAuth(S) /\ e[1] = S.from /\ e[2] = S.from /\ e[3] \in {"lrn", "rem"}
+\* A stage-1 datagram that makes no tunnel (a replay refused as already seen / too old: S.fresh = FALSE) still moves the
+\* learned slot in the unchanged code: handshake_manager.go beginHandshake calls hostinfo.SetRemote on the shared list
+\* (line 803) before CheckAndComplete refuses the handshake. Under the strict reading of the statement ("only from a
+\* tunnel authenticated as x": cfg.strict) that is not a permitted writer; the default reading takes every datagram that
+\* carries x's certificate as an authenticated packet of x (see ASSUMPTIONS in tools/props/_disc.py).
+IsAuth(S) == S.k \in {"enc", "hs1", "hs2"} /\ S.from # "" /\ (S.k # "hs1" \/ S.fresh \/ ~cfg.strict)
+W_Learn(n, S, e) == e[3] \in {"lrn", "rem"} /\ e[1] = S.from /\ e[2] = S.from /\ IsAuth(S)
 
 \* handshake_manager.go continueHandshake: hostinfo.SetRemote(via.UdpAddr) is called for the PENDING handshake (for S.x)
 \* before the certificate of the responder is compared with the intended address (line 902); when a wrong host answered
 \* the source is then blocked (BlockRemote, line 954). Learned from the code: the learned slot of x may take the source
 \* of any stage-2 datagram that answers n's pending handshake for x.
-W_LearnHs2(n, S, e) == S.k = "hs2" /\ S.x # "" /\ e[1] = S.x /\ e[2] = S.x /\ e[3] \in {"lrn", "rem"}
+W_LearnHs2(n, S, e) == S.k = "hs2" /\ e[3] \in {"lrn", "rem"} /\ S.x # "" /\ e[1] = S.x /\ e[2] = S.x
 
 WritesSlot(n, S, e) == W_Reply(n, S, e) \/ W_Update(n, S, e) \/ W_Learn(n, S, e) \/ W_LearnHs2(n, S, e)
 
 \* entry e appears in the table of n (K2 = the table after the step) in a step with stimulus S. A source learned from a
-\* stage 2 that a WRONG host sent (S.from # S.x) must be blocked in the same step (BlockRemote, handshake_manager.go:954);
-\* a lighthouse may not take it at all: its learned slot is served to others (coalesceAnswers does not look at blocks),
-\* and the statement lets it record addresses for x only from a tunnel authenticated as x.
+\* stage 2 that a WRONG host sent (S.from # S.x) is tolerated by the default reading only on an ordinary node and only if it
+\* is blocked in the same step (BlockRemote, handshake_manager.go:954); a lighthouse may not take it at all: its learned
+\* slot is served to others (coalesceAnswers does not look at blocks). The strict reading (cfg.strict) never allows it:
+\* "addresses for x only from a tunnel authenticated as x".
 AddOK(n, S, K2, e) ==
     \/ e[3] = "blk"                                              \* blocking is never harmful
-    \/ /\ Usable(n, e[1], e[4])
-       /\ \/ W_Reply(n, S, e) /\ e[4] \in S.addrs
+    \/ /\ \/ W_Reply(n, S, e) /\ e[4] \in S.addrs
           \/ W_Update(n, S, e) /\ e[4] \in S.addrs
           \/ W_Learn(n, S, e) /\ e[4] = S.src
-          \/ W_LearnHs2(n, S, e) /\ e[4] = S.src /\ (S.from = S.x \/ (~AmLh(n) /\ <<S.x, S.x, "blk", S.src>> \in K2))
+          \/ W_LearnHs2(n, S, e) /\ e[4] = S.src /\ (S.from = S.x \/ (~cfg.strict /\ ~AmLh(n) /\ <<S.x, S.x, "blk", S.src>> \in K2))
+       /\ Usable(n, e[1], e[4])                                   \* the C36 filters apply to every writer
 
 \* entry e disappears: with the last tunnel / the pending handshake of x (LightHouse.DeleteVpnAddrs from closeTunnel;
 \* lists that only the pending handshake still holds), or replaced by a permitted writer of its slot. Static entries
 \* (owner = n) never disappear (DeleteVpnAddrs static guard; a reply is stored under the lighthouse, not over them).
-\* A block is lifted only by a completed handshake (RemoteList.RefreshFromHandshake), which has just overwritten the
-\* learned slot: an address may not stay learned for x while its block goes away, unless x itself is heard from there.
+\* Blocks are lifted by design when a handshake with x completes (RemoteList.RefreshFromHandshake): not judged.
 DelOK(n, S, T, T2, P, P2, K2, e) ==
-    \/ e[3] = "rem"
-    \/ e[3] = "blk" /\ (<<e[1], e[1], "lrn", e[4]>> \notin K2 \/ (IsAuth(S) /\ S.from = e[1] /\ S.src = e[4]))
+    \/ e[3] \in {"rem", "blk"}
     \/ /\ e[3] \notin {"rem", "blk"}
        /\ e[2] # n
        /\ \/ e[1] \in (T \ T2) \cup (P \ P2)
@@ -133,6 +138,8 @@ KnownVerdict(n, S, K, K2, T, T2, P, P2) ==
     IN IF badAdd # {} THEN
           LET e == CHOOSE f \in badAdd : TRUE IN
           IF ~Usable(n, e[1], e[4]) /\ WritesSlot(n, S, e) THEN "R5:" \o Lbl(S) \o ":stored-unusable"
+          ELSE IF S.k = "hs1" /\ ~S.fresh THEN TableLabel(n, e) \o ":hs1:learned-from-refused-handshake"
+          ELSE IF S.k = "hs2" /\ S.from # S.x THEN TableLabel(n, e) \o ":hs2:learned-from-wrong-responder"
           ELSE TableLabel(n, e) \o ":" \o Lbl(S)
        ELSE IF badDel # {} THEN
           LET e == CHOOSE f \in badDel : TRUE IN
@@ -154,13 +161,18 @@ DestVerdict(n, S, K, K2, T, T2, o) ==
         IF o.to = S.src THEN "" ELSE "R5:recverr"
     ELSE IF o.k = "enc" THEN
         IF o.peer = "" THEN (IF o.to = S.src THEN "" ELSE "R5:" \o o.mt \o ":unattributed")
-        ELSE IF o.to \in Dests(K, K2, o.peer) /\ Usable(n, o.peer, o.to) THEN "" ELSE "R5:" \o o.mt
+        ELSE IF o.to \in Dests(K, K2, o.peer) /\ Usable(n, o.peer, o.to) THEN ""
+        \* handshake_manager.go:958: a wrong responder is told to close the tunnel it just made, at the address it answered from
+        ELSE IF S.k = "hs2" /\ o.mt = "close" /\ o.to = S.src /\ o.peer = S.from THEN ""
+        ELSE "R5:" \o o.mt
     ELSE "R5:other"
 
 (* Lighthouse messages a node sends (R1, R2) *)
 MsgVerdict(n, S, K, K2, o, w2, a2, e2) ==
     LET A == {o.addrs[i] : i \in 1..Len(o.addrs)} IN
-    IF o.k # "enc" \/ o.mt \in {"data", "test", "close", "control"} THEN ""
+    \* "undecodable": a lighthouse payload the recorder could not open (tunnel created and deleted within one step): only
+    \* its destination is judged
+    IF o.k # "enc" \/ o.mt \in {"data", "test", "close", "control", "undecodable"} THEN ""
     ELSE IF o.mt = "HostQuery" THEN            \* lighthouse.go innerQueryServer
         IF o.peer \in Lhs(n) /\ o.x \in w2 THEN "" ELSE "R1:HostQuery"
     ELSE IF o.mt = "HostUpdateNotification" THEN \* lighthouse.go SendUpdate
@@ -181,8 +193,13 @@ RespPermit(n, S) == IF IsPunchNote(n, S) /\ n \in cfg.respond /\ S.x # "" THEN {
 
 PunchCount(out, u) == Cardinality({i \in 1..Len(out) : out[i].k = "punch0" /\ out[i].to = u})
 PunchTargets(out) == {out[i].to : i \in {j \in 1..Len(out) : out[j].k = "punch0"}}
+NewRefused(n, S) == refused[n] \cup (IF S.k = "enc" /\ S.mt = "HostPunchNotification" /\ S.from \notin Lhs(n) THEN S.addrs ELSE {})
 PunchVerdict(n, S, out, s2) ==
-    IF \A u \in PunchTargets(out) : PunchCount(out, u) <= BagGet(s2, u) THEN "" ELSE "R6:punch:" \o Lbl(S)
+    LET bad == {u \in PunchTargets(out) : PunchCount(out, u) > BagGet(s2, u)} IN
+    IF bad = {} THEN ""
+    ELSE IF \E u \in bad : <<n, u>> \in cfg.deny THEN "R5:punch:unusable"     \* a filtered address is never a punch target
+    ELSE IF bad \cap NewRefused(n, S) # {} THEN "R6:punch:HostPunchNotification:not-from-lighthouse"
+    ELSE "R6:punch:" \o Lbl(S)
 
 (* Handshakes a node starts (R6, R1): handshake_manager.go StartHandshake callers *)
 PendOK(n, S, x, r2, a2) ==
@@ -223,6 +240,7 @@ Apply(n, S, T2, P2, K2, out) ==
     /\ asked' = [asked EXCEPT ![n] = NewAsked(n, S)]
     /\ ever' = [ever EXCEPT ![n] = NewEver(n, known[n], K2)]
     /\ resp' = [resp EXCEPT ![n] = NewResp(n, S)]
+    /\ refused' = [refused EXCEPT ![n] = NewRefused(n, S)]
     /\ sched' = [sched EXCEPT ![n] = [u \in DOMAIN s2 |-> IF s2[u] > PunchCount(out, u) THEN s2[u] - PunchCount(out, u) ELSE 0]]
     /\ known' = [known EXCEPT ![n] = K2]
     /\ UNCHANGED cfg
@@ -233,6 +251,6 @@ StartState(c) ==
     /\ cfg = c
     /\ tuns = [n \in Nodes |-> {}] /\ pend = [n \in Nodes |-> {}]
     /\ wanted = [n \in Nodes |-> {}] /\ resp = [n \in Nodes |-> {}] /\ asked = [n \in Nodes |-> {}] /\ ever = [n \in Nodes |-> {}]
-    /\ sched = [n \in Nodes |-> EmptyBag]
+    /\ sched = [n \in Nodes |-> EmptyBag] /\ refused = [n \in Nodes |-> {}]
 
 =============================================================================
